@@ -48,7 +48,7 @@ func c13Time(t *rapid.T, label string) ledger.Time {
 	if err != nil {
 		// the only spellings the API may refuse are those whose rounding to microseconds leaves the
 		// range RFC 3339 can spell (year 10000): such a timestamp is not one "the API accepts"
-		if raw, perr := time.Parse(time.RFC3339Nano, s); perr == nil && raw.Round(time.Microsecond).Year() > 9999 {
+		if raw, perr := time.Parse(time.RFC3339Nano, s); perr == nil && (raw.Round(time.Microsecond).Year() > 9999 || raw.UTC().Year() > 9999 || raw.UTC().Year() < 0) {
 			ts, _ = ledger.ParseTime("9999-12-31T23:59:59.999999Z")
 			return ts
 		}
@@ -325,7 +325,13 @@ func c13EngineWritten(rt *rapid.T, c *evid.Collector) {
 		pn := safely(func() {
 			switch kind {
 			case "create":
-				_, err = commander.CreateTransaction(ctx, p, ledger.TxToScriptData(ledger.TransactionData{Postings: ledger.Postings{ledger.NewPosting("world", "a", "USD", new(big.Int).Set(gen.Amount().Draw(rt, "ewAmount")))}, Metadata: md}, false))
+				td := ledger.TransactionData{Postings: ledger.Postings{ledger.NewPosting("world", "a", "USD", new(big.Int).Set(gen.Amount().Draw(rt, "ewAmount")))}, Metadata: md}
+				if rapid.Bool().Draw(rt, "ewTimestamp") {
+					// the client states when the transaction took place, in its own time zone (whatever is later
+					// derived from this transaction -- a revert -- is dated by the system, not by the client)
+					td.Timestamp = c13Time(rt, "ewTimestampValue")
+				}
+				_, err = commander.CreateTransaction(ctx, p, ledger.TxToScriptData(td, false))
 				if err == nil && !p.DryRun {
 					txs++
 				}
@@ -440,7 +446,7 @@ func c13JudgeStore(rt *rapid.T, c *evid.Collector, store *enginesim.ModelStore, 
 
 func TestC13(t *testing.T) {
 	c := evid.New("C13")
-	c.Rule = "generated chains of 1-12 log entries (all 7 kind x target shapes built with the code's constructors; API-format timestamps through ledger.ParseTime, years 0000-9999 with both ends of the range in UTC and with offsets pointing out of it; amounts to 10^40; nil/empty/unicode/HTML/long metadata; references; idempotency keys); one case in ten instead lets a real Commander write 2-8 entries (every kind of write, keyed or not, metadata nil / empty / filled, a quarter of the requests previews that must leave the chain alone) and judges what it persisted; one case in fifteen sends 2-6 writes of both API versions through the real routers to a real Commander, with Idempotency-Key headers and metadata keys in delete paths that are arbitrary bytes (not valid UTF-8 among them), and judges what was persisted. evaluations = log entries judged. Non-trivial = entry that is not a bare new-transaction with one posting, no metadata, no key; distinct = by canonical JSON of the entry."
+	c.Rule = "generated chains of 1-12 log entries (all 7 kind x target shapes built with the code's constructors; API-format timestamps through ledger.ParseTime, years 0000-9999 with both ends of the range in UTC and with offsets pointing out of it; amounts to 10^40; nil/empty/unicode/HTML/long metadata; references; idempotency keys); one case in ten instead lets a real Commander write 2-8 entries (every kind of write, keyed or not, metadata nil / empty / filled, a quarter of the requests previews that must leave the chain alone) and judges what it persisted; one case in fifteen sends 2-6 writes of both API versions through the real routers to a real Commander, with Idempotency-Key headers and metadata keys in delete paths that are arbitrary bytes (not valid UTF-8 among them), and judges what was persisted; one case in twenty judges the entries of a concurrent history run under the simulator (overlapping requests, bursts, a restart). evaluations = log entries judged. Non-trivial = entry that is not a bare new-transaction with one posting, no metadata, no key; distinct = by canonical JSON of the entry."
 	c.Assumptions = []string{
 		"PostgreSQL jsonb is emulated by a generic decode (exact numbers) and re-encode; timestamptz by an instant truncated to microseconds returned as time.Time",
 		"log dates are what ledger.Now() yields (UTC, microsecond precision), as in every constructor call of the engine",
@@ -453,6 +459,20 @@ func TestC13(t *testing.T) {
 		}
 		if rapid.IntRange(0, 14).Draw(rt, "httpWritten") == 0 {
 			c13HTTPWritten(rt, c)
+			return
+		}
+		if rapid.IntRange(0, 19).Draw(rt, "concurrentlyWritten") == 0 {
+			// entries written by requests that overlap (the simulator's schedules; the store keeps what an entry
+			// held at the moment it was inserted, as a database does): each must read back and re-verify
+			hcfg := enginesim.DefaultConfig()
+			hcfg.WideBurstPct = 30
+			hcfg.Crashes = 1
+			plan := enginesim.GenPlan(rt, hcfg)
+			r := runEngine(t, rt, c, plan)
+			if r == nil {
+				return
+			}
+			c13JudgeStore(rt, c, r.Store, "concurrently-written", enginesim.TraceKey(r))
 			return
 		}
 		n := rapid.IntRange(1, 12).Draw(rt, "chainLen")
